@@ -1,6 +1,6 @@
 import Heathcliff.Proofs.C16B
 import Heathcliff.Proofs.C16C
-import Heathcliff.Proofs.GenRng4
+import Heathcliff.Proofs.GenRng5
 
 /- C16: seeded expansion is reproducible, draws are fresh, samples are well-formed.
    Property theorems only; proofs are the helper lemmas of Heathcliff/Proofs/C16*.lean.
@@ -310,6 +310,33 @@ theorem gen_uniform_source_to_math (U : Uniform) (hU : U.Contract) {xof : Xof} (
     (c : List (List Nat)) (s' : St) (h : uniformPoly U xof s n moduli = .ok (c, s')) :
     GenRng.uniform (blakeOps U xof) (ofSt s) moduli n dest = .ok (ofSt s', flatCM moduli.length n c) ∧ AllBelow n moduli c :=
   gs_uniform_math U hU hbx s hbs n moduli dest hd hB hq c s' h
+
+/-- `SeedableRng::from_seed` = `fromSeed` (so "a freshly seeded generator" in the statements above is the generated constructor's result) -/
+theorem gen_from_seed_eq (seed : Seed) : GenRng.from_seed seed = .ok (ofSt (fromSeed seed)) := gn_from_seed_eq seed
+
+/-- EQUALITY ON SUCCESS, both directions: the generated `centered_binomial` returns `(g', d')` iff the model returns a polynomial `c` and a
+    state `s'` with `g' = ofSt s'`, `d' = flat c` — generated code and model succeed on exactly the same inputs, with the same result
+    (in particular: whenever one of them fails, so does the other) -/
+theorem gen_centered_binomial_iff (U : Uniform) {xof : Xof} (hx : SizedXof xof) (hbx : ByteXof xof) (s : St) (hs : SizedSt s) (hbs : ByteSt s)
+    (n : Nat) (moduli dest : List Nat) (hd : dest.length = moduli.length * n) (hB : moduli.length * n < B64) (g' : BlakeRNG) (d' : List Nat) :
+    GenRng.centered_binomial (blakeOps U xof) (ofSt s) moduli n dest = .ok (g', d') ↔
+      ∃ c s', centeredBinomial xof s n moduli = .ok (c, s') ∧ g' = ofSt s' ∧ d' = flatCM moduli.length n c :=
+  gs_centered_binomial_iff U hx hbx s hs hbs n moduli dest hd hB g' d'
+
+/-- the same for `ternary`: no assumption on `Uniform`, the moduli or the generator state (the code draws and encodes coefficient by
+    coefficient, the model draws first and encodes afterwards: they still succeed together) -/
+theorem gen_ternary_iff (U : Uniform) (xof : Xof) (s : St) (n : Nat) (moduli dest : List Nat)
+    (hd : dest.length = moduli.length * n) (hB : moduli.length * n < B64) (g' : BlakeRNG) (d' : List Nat) :
+    GenRng.ternary (blakeOps U xof) (ofSt s) moduli n dest = .ok (g', d') ↔
+      ∃ c s', Rng.ternary U xof s n moduli = .ok (c, s') ∧ g' = ofSt s' ∧ d' = flatCM moduli.length n c :=
+  gs_ternary_iff U xof s n moduli dest hd hB g' d'
+
+/-- the same for `uniform` -/
+theorem gen_uniform_iff (U : Uniform) (xof : Xof) (s : St) (n : Nat) (moduli dest : List Nat)
+    (hd : dest.length = moduli.length * n) (hB : moduli.length * n < B64) (g' : BlakeRNG) (d' : List Nat) :
+    GenRng.uniform (blakeOps U xof) (ofSt s) moduli n dest = .ok (g', d') ↔
+      ∃ c s', uniformPoly U xof s n moduli = .ok (c, s') ∧ g' = ofSt s' ∧ d' = flatCM moduli.length n c :=
+  gs_uniform_iff U xof s n moduli dest hd hB g' d'
 
 end generated
 
